@@ -8,7 +8,7 @@ from ..server import lifecycle_props as LP
 THEOREMS = ["C26_source_shape", "C26_single_loop", "C26_tick_accounting", "C26_no_lost_send", "C26_released_only_when_quiet", "C26_no_lost_send_atomic_store",
             "C26_refuted_premature_idle", "C26_refuted_premature_idle_lost", "C26_refuted_send_window", "C26_refuted",
             "C26_idleSound_is_C03", "C26_lifecycle_constants", "C26_cas_unique_owner", "C26_crash_timeout",
-            "C26_dbos_check_then_send_window"]
+            "C26_dbos_check_then_send_window", "C26_dbos_tick_accounting", "C26_dbos_stranding_only_in_windows"]
 LEAN_TARGETS = ["WfProps.C26"]
 EXPLANATION = (
     "Lean (model M7, WfModel/Lifecycle.lean; schedules = arbitrary lists of the code's await-free sections, any number of senders / release "
@@ -24,7 +24,19 @@ EXPLANATION = (
     "action; the real SqliteRunLifecycleLock is compared with the row model on random concurrent CAS streams; the real "
     "DBOSIdleReleaseDecorator's release/resume cycle runs over a stand-in inner runtime. Constants, SQL and control shapes are re-extracted "
     "from the sources on every run (GenLifecycle). Search: monitors on the observation log only (single loop, lock sections, busy releases "
-    "classified by the truthfulness of the last idle announcement, every accepted send processed, no step twice)."
+    "classified by the truthfulness of the last idle announcement, every accepted send processed, no step twice). "
+    "DBOS half under latency (harness/server/dbos_gated.py, shared with C36): the real DBOSIdleReleaseDecorator + SqliteRunLifecycleLock with virtual-time "
+    "latency before / after every lifecycle CAS (so that begin_release, complete_release and try_begin_resume really suspend their caller, as a PostgreSQL "
+    "round trip does) and on every delivery to the run, client sends placed on the instants of the first release and in bursts on a released / releasing "
+    "run, steps that take time, every open send followed past the 120 s crash timeout. K: every observed protocol action against machine B of M7 (row, "
+    "incarnation, mailbox, reduced ticks, stranded ticks, releaser / sender positions, releaser task ended early). Lean for B: every finished send's tick is "
+    "in exactly one of reduced / mailbox / stranded and nothing else is (C26_dbos_tick_accounting); only the two check-then-send windows strand a tick "
+    "(C26_dbos_stranding_only_in_windows). C26's monitors there: no control loop is started while another loop of the run is live; try_begin_resume gives the "
+    "resume away only from `released` or from `releasing` older than the crash timeout, once per release, and only an owner reloads; from the commit of "
+    "active->releasing to complete_release the releaser's task is alive (no crash is injected) or the row has left that `releasing`; when TickIdleRelease ends "
+    "a loop the run has no client tick in its mailbox, no running step and an idle announcement later than its last tick; every accepted event is worked off "
+    "to the end of its step when the execution ends. What the unchanged tree does to a tick that is in flight while the run is released / resumed "
+    "(causes `tick_arrived_during_release`, `tick_sent_during_resume`) is classified apart, reproduced by three witnesses and counted."
 )
 LEVEL_TEXT = ("proof (Lean 4) over the lifecycle model M7 — in-process IdleReleaseDecorator and the DBOS lifecycle row/protocol — "
               "+ per-action correspondence with the real in-process server stack and the real SqliteRunLifecycleLock + monitors; "
@@ -32,8 +44,21 @@ LEVEL_TEXT = ("proof (Lean 4) over the lifecycle model M7 — in-process IdleRel
               "the PostgreSQL lock is extracted, not run)")
 ASSUMPTIONS = LP.COMMON_ASSUMPTIONS + [
     "C26_dbos_check_then_send_window is a model-only witness (a message sent to a workflow that has exited is assumed dropped when _do_resume purges its DBOS state); not claimed as a finding",
+    "DBOS half under latency: what DBOS adds to the decorator is taken to be latency (and suspension of the calling task) on the lifecycle statements and on deliveries; "
+    "a message delivered to a workflow that has exited is gone when _do_resume purges that workflow (same rule as the model's `stranded`); no process crash is injected there "
+    "(releaser crashes: Lean, C26_crash_timeout / C26_cas_unique_owner, and the row-level correspondence) — so a releaser task that ends between its CAS and complete_release did so "
+    "by the code's own doing; `eventually processed` is judged when the execution ends: after the case's quiet period and, for a send that is still open, 120 s + the case's latencies later",
+    "unchanged-tree behaviour classified apart on the gated DBOS stack, not claimed by this check (counted on every run, witnesses in harness/corpus/c26_dbos_*.json): a tick that passed "
+    "try_begin_resume while the row said `active` and reaches the run after that release's timer fired does not stop the release — TickIdleRelease is reduced unconditionally, so the run is "
+    "released with the tick's step running (step cancelled; re-run only if some later send reloads the run) or with the tick left in / delivered to the exited workflow's mailbox "
+    "(`...:tick_arrived_during_release`); a tick admitted after a resumer's CAS set the row to `active` and before the new workflow exists goes to the exited workflow "
+    "(`...:tick_sent_during_resume`). Any other way of releasing a busy run or losing an accepted event has its own signature",
 ]
-TRUSTED_EXTRA = LP.TRUSTED_EXTRA
+TRUSTED_EXTRA = LP.TRUSTED_EXTRA + [
+    "harness/server/dbos_gated.py: the stand-in engine under DBOSIdleReleaseDecorator (BasicRuntime; ticks delivered by run id after a virtual-time latency, "
+    "as DBOS.send is; DBOS.retrieve_workflow_async / delete_workflow_async emulated by hooks), the latency wrapper around the real SqliteRunLifecycleLock, the "
+    "task bookkeeping that attributes lock calls to releasers / senders, the lifecycle row inserted by the harness",
+]
 
 WITNESSES = [
     ("premature_idle(F14)", IC.WITNESS_PREMATURE_IDLE, "C26/released_while_busy:premature_idle"),
@@ -45,7 +70,9 @@ def run(env: Env) -> Outcome:
     out = Outcome()
     out.rule = ("generated idle workflows (1-5 external events + optional final, durations and send times on a grid around idle_timeout, 1-2 workers, "
                 "memory/sqlite store, 1/3 with scheduler-controlled store suspension, 1/4 with work longer than idle_timeout and retries); "
-                "non-trivial = at least one release and one reload; distinct by (case, schedule)")
+                "non-trivial = at least one release and one reload; distinct by (case, schedule). DBOS half under latency: idle_timeout, latencies of the eight "
+                "round trips from {0,1,10,...,300} ms (per-call cycles), 0-4 sends on the instants of the first release or in a burst on the released run, "
+                "step work 0/30/120/400 ms; non-trivial = TickIdleRelease sent and a reload")
     LP.run_malformed(out)
     LP.run_inprocess(env, out, "C26", env.budget(24, 2400), WITNESSES)
     LP.run_row_corr(env, out, env.budget(300, 40000))
@@ -61,4 +88,6 @@ def run(env: Env) -> Outcome:
         out.violations.append(Violation("C26/dbos_release_without_cas",
                                         f"TickIdleRelease was sent although no begin_release won the CAS: lock calls {o0['lock_calls']}",
                                         {"kind": "dbos_standin", "create_row": False}))
+    # DBOS half under latency: a lifecycle lock whose calls really suspend, sends placed on the instants of a release / a resume
+    LP.run_dbos_gated(env, out, "C26", env.budget(40, 1500))
     return out
